@@ -104,10 +104,18 @@ pub enum Take {
     All,
     First(usize),
     Nth(usize),
+    /// consume everything through `Iterator::fold` (what the caller receives is recorded as with `all`)
+    Fold,
+    /// consume everything through `Iterator::count` (every element is discarded by the iterator's consumer)
+    Count,
 }
 
 fn take_of(s: &str, what: &str, ln: usize) -> Result<Take, String> {
-    if s == "all" {
+    if s == "fold" {
+        Ok(Take::Fold)
+    } else if s == "count" {
+        Ok(Take::Count)
+    } else if s == "all" {
         Ok(Take::All)
     } else if let Some(k) = s.strip_prefix("nth:") {
         num::<usize>(k, what, ln).map(Take::Nth)
